@@ -1073,6 +1073,10 @@ fn t_state<M: RawMutex>(cfg: &Cfg, ops: &[Op], run: &mut Run) {
                 let mut seen = 0u32;
                 let mut i = 0usize;
                 loop {
+                    // a follower that has seen a violation stops (a broken channel could feed it forever)
+                    if sh.violation.borrow().is_some() || i > 10_000 {
+                        break;
+                    }
                     let give_up = script.get(i).copied() == Some(1);
                     i += 1;
                     let r = if give_up {
